@@ -13,3 +13,4 @@ def run(repo: Repo, rep: Report) -> None:
     z3m.check_variable_identity(repo, rep)
     z3m.check_tree_immutability(repo, rep)
     z3m.check_posting(repo, rep)
+    z3m.check_declarations(repo, rep)
